@@ -34,6 +34,10 @@ type caseC17 struct {
 	// zero-valued properties are transmitted (topic alias 0 included: if the
 	// decoder accepts that frame, the packet is judged like any other).
 	Zeros bool `json:"zeros,omitempty"`
+	// Reused (wire): the frame is decoded with UnmarshalBinary into a value
+	// that already held a packet of the same type with the opposite verdict
+	// and was rendered with String() before (a read loop reusing one value).
+	Reused bool `json:"reused,omitempty"`
 }
 
 // reference predicates, written from the statement
@@ -96,6 +100,51 @@ func checkC17(c caseC17) (sig, msg string) {
 		}
 		if err != nil {
 			return "", "" // not accepted: nothing to judge (C03/C09 decide acceptance)
+		}
+		if c.Reused && (m.Type == model.PUBLISH || m.Type == model.SUBSCRIBE) && !(m.Type == model.PUBLISH && m.QoS == 3) {
+			// the value is first filled by ReadPacket from a frame with the
+			// same first byte and the opposite verdict, rendered, and then
+			// the real body is decoded into it
+			other := model.New(m.Type)
+			if m.Type == model.PUBLISH {
+				other.QoS, other.Dup, other.Retain = m.QoS, m.Dup, m.Retain
+				other.TopicName = "x"
+				if m.QoS > 0 {
+					other.PacketID = 5
+				}
+				if !publishMalformed(&m) { // make the other one malformed
+					if m.QoS > 0 {
+						other.PacketID = 0
+					} else {
+						other.TopicName = ""
+					}
+				}
+			} else {
+				other.PacketID = 3
+				other.Filters = []model.Filter{{Filter: "x", Opts: 1}}
+				if !subscribeMalformed(&m) {
+					other.Filters[0].Opts = 3
+				}
+			}
+			other.Normalize()
+			of := ref.Canonical(&other)
+			of[0] = frame[0]
+			if v, oerr, opan := read(of); opan == nil && oerr == nil && v != nil && api.TypeOf(v) == int(m.Type) {
+				_, _, body, _ := ref.Split(frame)
+				var derr error
+				if pan := guard.Call(func() {
+					_ = v.String()
+					if wf, ok := v.(mq.HasWellFormed); ok {
+						_ = wf.WellFormed()
+					}
+					derr = v.UnmarshalBinary(append([]byte(nil), body...))
+				}); pan != nil {
+					return "panic", fmt.Sprintf("decoding into a used value panicked: %v", pan.Value)
+				}
+				if derr == nil {
+					q = v
+				}
+			}
 		}
 		p = q
 		// judge by what the decoded packet reports
@@ -210,9 +259,11 @@ func TestC17(t *testing.T) {
 	}
 
 	zeros := false
+	reusedNext := false // every other wire case decodes into a used value
 	runVia := func(m model.Packet, wire bool, via, class string, nt bool) (caseC17, string, string) {
 		m.Normalize()
-		c := caseC17{ModelGob: packModel(m), Model: m.String(), Wire: wire, Via: via, Zeros: zeros}
+		c := caseC17{ModelGob: packModel(m), Model: m.String(), Wire: wire, Via: via, Zeros: zeros, Reused: wire && via == "" && reusedNext}
+		reusedNext = !reusedNext
 		if zeros {
 			class += "/explicit-zeros"
 		}
@@ -220,8 +271,11 @@ func TestC17(t *testing.T) {
 		if via != "" {
 			class += "/" + via
 		}
-		r.Case(vf.FPs(c.ModelGob, fmt.Sprint(wire, zeros), via), nt, class, func() interface{} {
-			return map[string]interface{}{"model": m.String(), "decoded_from_wire": wire, "via": via, "explicit_zeros": c.Zeros}
+		if c.Reused {
+			class += "/into-used-value"
+		}
+		r.Case(vf.FPs(c.ModelGob, fmt.Sprint(wire, zeros, c.Reused), via), nt, class, func() interface{} {
+			return map[string]interface{}{"model": m.String(), "decoded_from_wire": wire, "via": via, "explicit_zeros": c.Zeros, "decoded_into_used_value": c.Reused}
 		})
 		return c, sig, msg
 	}
